@@ -95,11 +95,65 @@ def run(chk):
                               "got": got[:500], "want": "an error no later than when row group %d is loaded, no row of it delivered, no panic" % rg})
         else:
             nontrivial.add(o)
+    # a dictionary / index page at the HEAD of a column chunk whose data pages are PLAIN v1 pages (a writer that fell back
+    # from dictionary encoding), located by dictionary_page_offset / index_page_offset with data_page_offset after it
+    # (seeded change C18-r8: a reader that seeks to data_page_offset never sees the page). Files of the library's own
+    # writer (uncompressed, two row groups) rewritten by the protocol glue `dictFile`.
+    head_cases, head_ops, head_meta = [], [], []
+    for name in workloads.ZOOS:
+        z = zs.get(name)
+        if z is None:
+            continue
+        g = zoolib.Gen(rng, mode="mixed")
+        rgs = [[g.record(z.nodes) for _ in range(3)] for _ in range(2)]
+        ops_ = []
+        for gr in rgs:
+            ops_ += [("a", r_) for r_ in gr] + [("w",)]
+        head_cases.append((filelevel.Case(z, 2, 0, ops_ + [("c",)], "head-page"), rgs))
+    filelevel.run_cases(pair, [c for c, _ in head_cases], want_parse=False, want_read=False)
+    for c, rgs in head_cases:
+        ncols = len(c.zoo.cols)
+        for kind in (0, 1):
+            for rg in (0, 1):
+                for ci in (range(ncols) if thorough else sorted({0, ncols // 2, ncols - 1})):
+                    head_ops.append("dictfile %d %d %d %s" % (kind, rg, ci, c.impl_file)); head_meta.append((c, rgs, kind, rg, ci))
+    head_files = common.chunked_parallel(pair.model, head_ops, workers=16, chunk=8)
+    h_impl = common.chunked_parallel(pair.impl, ["zoo-read %s %s" % (m[0].zoo.name, f) for m, f in zip(head_meta, head_files)], workers=16, chunk=8)
+    h_model = common.chunked_parallel(pair.model, ["read %s %s -" % (m[0].zoo.cols_text, f) for m, f in zip(head_meta, head_files)], workers=16, chunk=8)
+    for (c, rgs, kind, rg, ci), f, a, b in zip(head_meta, head_files, h_impl, h_model):
+        if f in ("none", "bad-op") or f == c.impl_file:
+            tie_breaks.append({"what": "dictFile glue produced no file", "op": "dictfile %d %d %d" % (kind, rg, ci)})
+            continue
+        applied += 1
+        z = c.zoo
+        feature = "dictionary-page-at-chunk-head" if kind == 0 else "index-page-at-chunk-head"
+        dist[feature] = dist.get(feature, 0) + 1
+        got = filelevel.strip_calls(a)
+        if got != b:
+            tie_breaks.append({"what": "reader model vs generated reader on a file with a page before the data pages", "op": "dictfile %d %d %d %s" % (kind, rg, ci, c.key()[:200]), "impl": got[:200], "model": b[:200]})
+        fields = dict(p.split("=", 1) for p in got.split(" ") if "=" in p)
+        before = sum(len(x) for x in rgs[:rg])
+        recs_want = [z.proj(r_) for gr in rgs for r_ in gr]
+        recs = [] if fields.get("recs", "-") == "-" else fields["recs"].split(";")
+        if "panic" in got or got.startswith("crash") or got.startswith("oversize"):
+            verdict = "panic"
+        elif fields.get("open") == "err":
+            verdict = "refused-at-open"
+        elif fields.get("err") == "err" and int(fields.get("nexts", 0)) <= before and recs == recs_want[:len(recs)]:
+            verdict = "refused-at-next"
+        else:
+            verdict = "accepted" if fields.get("err") != "err" else "rows-of-the-bad-row-group-delivered"
+        if verdict in ("panic", "accepted", "rows-of-the-bad-row-group-delivered"):
+            prop_fail.append({"case": "dictfile %d %d %d on the file of %s" % (kind, rg, ci, c.key()[:2500]), "key": {"feature": feature, "verdict": verdict},
+                              "clause": "%s in row group %d column %s: %s" % (feature, rg, ".".join(z.cols[ci][0]), verdict),
+                              "got": got[:500], "want": "an error no later than when row group %d is loaded, no row of it delivered, no panic" % rg})
+        else:
+            nontrivial.add("head %d %d %d %s" % (kind, rg, ci, z.name))
     cov.update({
         "obligations": pr["obligations"], "discharged": pr["discharged"], "axioms": pr["axioms"],
         "checker_cmd": "cd lean && lake build %s" % MODULE, "trusted_base": TRUSTED_BASE, "forbidden_constructs": pr["forbidden_constructs"],
         "evaluations": applied, "distinct_nontrivial": len(nontrivial),
-        "rule": "otherwise valid foreign files (PQ.specWrite, 8 structs, 3 codecs) in which ONE page of one column chunk uses one unsupported feature: dictionary page, index page, v2 data page, value encodings 2-9, BIT_PACKED/PLAIN level encodings on columns that have levels, codecs 3-7; every (feature, column [sampled in quick], row group 0/1, first/second page); non-trivial = distinct mutant refused with an error before any row of its row group is delivered",
+        "rule": "otherwise valid foreign files (PQ.specWrite, 8 structs, 3 codecs) in which ONE page of one column chunk uses one unsupported feature: dictionary page, index page, v2 data page, value encodings 2-9, BIT_PACKED/PLAIN level encodings on columns that have levels, codecs 3-7; every (feature, column [sampled in quick], row group 0/1, first/second page); plus files of the library's own writer with a dictionary or index page inserted at the HEAD of a column chunk (dictionary_page_offset / index_page_offset = chunk start, data_page_offset after it, PLAIN v1 data pages) for row group 0/1 and first/middle/last (thorough: every) column; non-trivial = distinct mutant refused with an error before any row of its row group is delivered",
         "samples": [ops[0][:300], ops[len(ops) // 2][:300]],
         "input_distribution": dist,
         "tie": "reader model outcome (err-at-open | err-at-next k | rows | panic) = generated reader's on every mutant",
